@@ -380,6 +380,31 @@ def _mro_names(eng, c, seen=None):
     return out
 
 
+def match_unique(eng, res, rule="R-MATCH-UNIQUE"):
+    """Each placement of a fragment on a set of atoms is one path of the search.  RDKit returns one match per atom set
+    by default; with uniquify=False every automorphism of a symmetric fragment (isopropyl: 2, CF3: 6) becomes a path of
+    its own and the reported probability is multiplied by that number."""
+    res.doc(rule, "substructure matches are enumerated once per atom set (RDKit's default uniquify)")
+    n = 0
+    bad = []
+    for q, fi in sorted(eng.prog.functions.items()):
+        if fi.module.name != "mol_prob":
+            continue
+        for c in calls(fi, "GetSubstructMatches"):
+            n += 1
+            res.unit(fi)
+            kw = [k for k in c.keywords if k.arg in ("uniquify", None)]
+            okc = len(c.args) <= 1 or (len(c.args) >= 2 and False)
+            if kw and not (isinstance(kw[0].value, ast.Constant) and kw[0].value.value is True and kw[0].arg == "uniquify"):
+                okc = False
+            if len(c.args) > 1:
+                okc = False
+            if not okc:
+                bad.append(f"{fi.qualname} line {c.lineno}: {src(c)[:70]}")
+    res.ob(rule, "package", "unique-matches", "every GetSubstructMatches call of the probability model uses the default (one match per atom set)", "-", n >= 3 and not bad, "; ".join(bad) or f"{n} call(s)")
+    res.floor(rule, n, 3)
+
+
 def check(eng, res):
     from . import c10 as _c10
 
@@ -405,5 +430,6 @@ def check(eng, res):
     reaction_prob(eng, res)
     res.doc("R-MATCH-DEDUP", "the duplicate filter of the search cannot merge states with different block masses")
     match_dedup(eng, res)
+    match_unique(eng, res)
     res.assumptions += ["RDKit substructure matching enumerates the embeddings of a fragment"]
     res.not_decided += ["equality of the two numbers for all molecules", "the sum over the ensemble being 1", "atom-order invariance (RDKit substructure matching)", "reaction probabilities for objects with several repeat units"]
